@@ -211,13 +211,15 @@ class RefStore:
             return {"result": ops[0]["result"], "helpers": ops[0].get("helpers", 0), "checks": ops[0].get("checks", [])}
         return {"replies": res.get("replies"), "violation": res.get("violation"), "end": res.get("end")}
 
-    def ensure(self, wanted):
-        """wanted: dict key -> ref spec; computes the missing ones in parallel"""
+    def ensure(self, wanted, deadline=None):
+        """wanted: dict key -> ref spec; computes the missing ones in parallel (in the given order, until `deadline`)"""
         missing = [(k, s) for k, s in wanted.items() if k not in self.cache and not self._from_disk(k, s)]
         if not missing:
             return
-        results = self.farm.run_all([s for _, s in missing])
+        results = self.farm.run_all([s for _, s in missing], deadline=deadline)
         for (k, s), r in zip(missing, results):
+            if r is None:
+                continue  # cut off by the deadline
             self.cache[k] = self._extract(s, r)
             self.specs[k] = s
             self.computed += 1
